@@ -520,3 +520,91 @@ func init() {
 			return obs
 		}})
 }
+
+// PKG.export-all-args — C08: `export` takes any number of symbols, strings and
+// (nested) lists of those and exports every one; use-package then binds
+// exactly the exported names.  A return of a non-error value from inside the
+// argument loop drops every argument after it.
+func init() {
+	register(&Rule{ID: "PKG.export-all-args", Floor: 2,
+		Doc: "in builtinExport every return inside the loop over the arguments is an error return — an Errorf construction, or a value returned only over an edge that entails its Type == LError: the loop runs to the last argument unless one is invalid",
+		Run: func(c *Ctx) []Obligation {
+			const rid = "PKG.export-all-args"
+			fn, fd, pkg := c.LookupFunc("lisp.builtinExport")
+			if fn == nil {
+				return []Obligation{anchorMissing(rid, "lisp.builtinExport")}
+			}
+			u := FuncUnit{fn, fd, pkg}
+			info := pkg.TypesInfo
+			args := argsParam(info, u, nil)
+			var loop *ast.RangeStmt
+			ast.Inspect(fd.Body, func(n ast.Node) bool {
+				if rs, ok := n.(*ast.RangeStmt); ok && loop == nil {
+					if se, ok := ast.Unparen(rs.X).(*ast.SelectorExpr); ok && se.Sel.Name == "Cells" && identObj(info, se.X) == args {
+						loop = rs
+					}
+				}
+				return true
+			})
+			if loop == nil {
+				return []Obligation{mkOb(c, rid, u, "argument loop", fd, Violated, "export no longer ranges over all its arguments", true)}
+			}
+			fc := c.cfgOf(u, nil)
+			var obs []Obligation
+			ord := &ordinal{}
+			ast.Inspect(loop.Body, func(n ast.Node) bool {
+				if _, ok := n.(*ast.FuncLit); ok {
+					return false
+				}
+				rs, ok := n.(*ast.ReturnStmt)
+				if !ok || len(rs.Results) != 1 {
+					return true
+				}
+				construct := ord.next("return inside the argument loop")
+				r := ast.Unparen(rs.Results[0])
+				if ce, ok := r.(*ast.CallExpr); ok {
+					if f := Callee(info, ce); f != nil && strings.HasSuffix(f.Name(), "Errorf") {
+						obs = append(obs, mkOb(c, rid, u, construct, rs, Proved, "constructs an error", true))
+					} else {
+						obs = append(obs, mkOb(c, rid, u, construct, rs, Violated, "returns the value of `"+types.ExprString(r)+"` from inside the argument loop whether or not it is an error: every argument after this one is silently dropped — (export '(a b) 'c) exports a and b only, and use-package then binds a strict subset", true))
+					}
+					return true
+				}
+				X := identObj(info, r)
+				if X == nil {
+					obs = append(obs, mkOb(c, rid, u, construct, rs, Undecided, "returned expression not recognised", true))
+					return true
+				}
+				cls := func(e ast.Expr) (string, bool) {
+					be, ok := ast.Unparen(e).(*ast.BinaryExpr)
+					if !ok || be.Op != token.EQL && be.Op != token.NEQ {
+						return "", false
+					}
+					isT := func(a ast.Expr) bool {
+						se, ok := ast.Unparen(a).(*ast.SelectorExpr)
+						return ok && se.Sel.Name == "Type" && identObj(info, se.X) == X
+					}
+					isE := func(a ast.Expr) bool {
+						o := identObjOrSel(info, a)
+						return o != nil && o.Name() == "LError"
+					}
+					if isT(be.X) && isE(be.Y) || isT(be.Y) && isE(be.X) {
+						return "iserr", be.Op == token.NEQ
+					}
+					return "", false
+				}
+				cut := fc.edgesEntailing(cls, func(v map[string]bool) bool { return v["$has:iserr"] && v["iserr"] })
+				loc, ok := fc.Locate(rs)
+				switch {
+				case !ok:
+					obs = append(obs, mkOb(c, rid, u, construct, rs, Undecided, "return not located in the CFG", true))
+				case fc.reachableAvoiding(loc.B, cut):
+					obs = append(obs, mkOb(c, rid, u, construct, rs, Violated, "returns `"+X.Name()+"` from inside the argument loop without having tested it for LError: a successful nested export ends the whole call and drops the remaining arguments", true))
+				default:
+					obs = append(obs, mkOb(c, rid, u, construct, rs, Proved, "only when "+X.Name()+".Type == LError", true))
+				}
+				return true
+			})
+			return obs
+		}})
+}
